@@ -760,6 +760,45 @@ func runC12(c *rt.Ctx) {
 	}
 	c.Require("malformed-number-literal", 50)
 
+	// well-formed JSON that hand-written tokenizers get wrong: every string escape JSON knows (\/ and surrogate
+	// pairs are not Go escapes) in ignored keys, ignored values, unit strings and the value/unit keys themselves;
+	// whole numbers beyond 2^53 written with a fraction or an exponent (acceptance is open, the value is not)
+	for _, cfg := range []c12Cfg{{rule: size.RuleEnableJSONStringForm | size.RuleEnableJSONObjectForm, maxKeys: 16}, {rule: size.RuleEnableJSONObjectForm, maxKeys: 0}, {rule: size.RuleEnableJSONStringForm | size.RuleEnableJSONObjectForm | size.RuleDisallowUnknownKeys, maxKeys: 3}} {
+		cfg := cfg
+		c12Apply(cfg)
+		c.Serial("json-escapes-and-big-numbers", func(w *rt.W) {
+			escs := []string{`\/`, `\ud83d\ude00`, `\u0000`, `\b`, `\f`, `\n`, `\r`, `\t`, `\"`, `\\`, `\ud800`, `\udc00\ud800`, `\u00e9`, `\u2028`, `a\/b\/c`, `http:\/\/x\/y`, `\ud83d\ude00\ud83d\ude00`, `\u0041`, "\u00e9", "\U0001F600"}
+			for _, e := range escs {
+				for _, doc := range []string{
+					`{"note":"` + e + `","value":3,"unit":"kB"}`, `{"value":3,"note":"` + e + `","unit":"kB"}`, `{"value":3,"unit":"kB","note":"` + e + `"}`,
+					`{"` + e + `":1,"value":3,"unit":"kB"}`, `{"value":3,"unit":"kB","x":["` + e + `",{"` + e + `":"` + e + `"}]}`,
+					`{"value":3,"unit":"kB` + e + `"}`, `{"value":3,"unit":"` + e + `kB"}`, `{"value` + e + `":3,"unit":"kB"}`, `"3kB` + e + `"`, `"` + e + `"`,
+				} {
+					c12Case(w, doc, cfg)
+				}
+				w.ClassN("json-string-escape", 1)
+			}
+			// escapes that spell ordinary letters: "\u004biB" is KiB, "\u0076alue" is value
+			for _, doc := range []string{`{"value":3,"unit":"\u004biB"}`, `{"\u0076alue":3,"unit":"KiB"}`, `{"value":3,"\u0075nit":"Ki\u0042"}`, `{"VAL\u0055E":3,"UNI\u0054":"\u006bB"}`, `"3\u0020kB"`, `"3\u006bB"`, `"\u0033kB"`} {
+				c12Case(w, doc, cfg)
+			}
+			for _, n := range []string{"9007199254740993", "9007199254740992", "9007199254740991", "18446744073709551615", "18014398509481985", "12345678901234567891", "1152921504606846977", "9223372036854775807", "10000000000000000001"} {
+				forms := []string{n + ".0", n + ".000", n + "e0", n + "E+0", n + "e-0", n + ".0e0", n + "0e-1", n + "00E-2"}
+				if strings.HasSuffix(n, "1") || strings.HasSuffix(n, "5") || strings.HasSuffix(n, "7") || strings.HasSuffix(n, "3") || strings.HasSuffix(n, "2") {
+					forms = append(forms, n[:len(n)-1]+"."+n[len(n)-1:]+"e1", n[:1]+"."+n[1:]+"e"+fmt.Sprint(len(n)-1))
+				}
+				for _, f := range forms {
+					for _, doc := range []string{f, `{"value":` + f + `,"unit":"B"}`, `{"unit":"B","value":` + f + `}`, `{"value":` + f + `,"unit":"B","x":` + f + `}`, ` ` + f + ` `} {
+						c12Case(w, doc, cfg)
+					}
+				}
+				w.ClassN("whole-number-beyond-2^53-with-fraction-or-exponent", 1)
+			}
+		})
+	}
+	c.Require("json-string-escape", 50)
+	c.Require("whole-number-beyond-2^53-with-fraction-or-exponent", 20)
+
 	// ignored members of any nesting depth, and numbers inside them that no float can hold
 	for _, cfg := range []c12Cfg{{rule: size.RuleEnableJSONStringForm | size.RuleEnableJSONObjectForm, maxKeys: 16}, {rule: size.RuleEnableJSONObjectForm, maxKeys: 0}} {
 		cfg := cfg
